@@ -16,6 +16,9 @@ const Config cfgs[] = {
   {"ms/debra0", make_int<MS<rc::DEBRA<0>>>},
   {"ms/qsbr", make_int<MS<rc::QSBR>>},
   {"ms/stamp", make_int<MS<rc::STAMP>>},
+  // non-default backoff policies (policy::backoff is part of every container's configuration space)
+  {"ms/backoff_exp2/ebr0", make_int<xenium::michael_scott_queue<int, xenium::policy::reclaimer<rc::EBR<0>>, xenium::policy::backoff<xenium::exponential_backoff<2>>>>},
+  {"ms/backoff_single/hp_s2_0_0", make_int<xenium::michael_scott_queue<int, xenium::policy::reclaimer<rc::HP_S<2, 0, 0>>, xenium::policy::backoff<xenium::single_backoff>>>},
 };
 QueueHarness h("queues_ms", cfgs, sizeof(cfgs) / sizeof(cfgs[0]));
 struct Reg { Reg() { xsim::register_harness(&h); } } reg;
